@@ -241,13 +241,21 @@ def run(index, rep, tier):
                 raise AnalysisError("R17.3: %s: root test not recognised" % q)
             d0 = Decision(facts={norm(roots[0].test): True})
             d1 = Decision(facts={norm(roots[0].test): False})
+            d0.lenient = d1.lenient = True    # a test on something else than the root question is not part of the recurrence
             d0.run([roots[0]])
             d1.run([roots[0]])
             zero = [v for v in d0.env.values() if v in (0, 0.0)]
             rec = [v for v in d1.exprs.values() if isinstance(v, ast.BinOp) and isinstance(v.op, ast.Add)]
             okr = False
             if rec:
-                parts = sorted([norm(rec[0].left), norm(rec[0].right)])
+                def through_local(e_, loop=loops[0]):
+                    # a local bound once in the loop stands for what it was bound to
+                    if isinstance(e_, ast.Name):
+                        ds = [a for a in ast.walk(loop) if isinstance(a, ast.Assign) and any(isinstance(t_, ast.Name) and t_.id == e_.id for t_ in a.targets)]
+                        if len(ds) == 1:
+                            return norm(ds[0].value)
+                    return norm(e_)
+                parts = sorted([through_local(rec[0].left), through_local(rec[0].right)])
                 own = [p_ for p_ in parts if p_ in (nv + ".edge.length", "node_edge_length_fn(%s)" % nv)]
                 par = [p_ for p_ in parts if (nv + "._parent_node") in p_ or (nv + ".parent_node") in p_]
                 okr = len(own) == 1 and len(par) == 1 and (attr is None or par[0].endswith("." + attr))
@@ -449,3 +457,16 @@ def run(index, rep, tier):
         rep.rule("R17.13", "no distance is served from a cache nobody invalidates: in the node and tree classes a computed value parked on an object under `if not hasattr(obj, '_a')` is also written or deleted by some other function (Node.distance_from_tip used to keep `_distance_from_tip` on every child for ever)")
         rep.floor("R17.13", "functions of the tree model examined", 0, uninvalidated_memo_rule(index, rep, "R17.13", ["dendropy.datamodel.treemodel._node", "dendropy.datamodel.treemodel._tree", "dendropy.datamodel.treemodel._edge"]))
         rep.ob("R17.13", "src/dendropy/datamodel/treemodel", "hasattr-guarded caches of computed values in Node / Tree / Edge: none without a second writer", True)
+
+    # ---- R17.14 one yardstick for depth on a tree
+    with rep.section("R17.14"):
+        rep.rule("R17.14", "one yardstick for depth on a tree: the Tree-level depth queries that are meant to be used together - max_distance_from_root, minmax_leaf_distance_from_root and num_lineages_at (the lineage-through-time recipe steps num_lineages_at up to max_distance_from_root) - all measure from the seed node at 0 through calc_node_root_distances(); none of them goes through Node.distance_from_root(), which also counts the length of the edge ABOVE the seed, so that on a tree with a root edge (or a clade cut out of a larger tree) the maximum would lie beyond every tip")
+        n14 = 0
+        for name in ("max_distance_from_root", "minmax_leaf_distance_from_root", "num_lineages_at"):
+            f = index.function(TREE + "." + name)
+            n14 += 1
+            cs = [call_name(c) for c in calls_in(f.node, nested=True)]
+            other = [c for c in calls_in(f.node, nested=True) if call_name(c) == "distance_from_root"]
+            rep.check("calc_node_root_distances" in cs and not other, "R17.14", f.qualname, "depth measured by another yardstick", fn_where(f, other[0] if other else None), "%s measures through calc_node_root_distances()" % name,
+                      "Tree.%s %s: Node.distance_from_root() adds the seed node's own edge length while calc_node_root_distances() - which num_lineages_at and the stored root_distance use - puts the seed at 0, so with a root edge of 0.5 the 'maximum distance from the root' is 0.5 beyond the deepest tip and num_lineages_at(max_distance_from_root()) finds no lineage there" % (name, "calls `%s`" % norm(other[0])[:50] if other else "no longer calls calc_node_root_distances()"))
+        rep.floor("R17.14", "tree-level depth queries", 3, n14)
